@@ -39,6 +39,7 @@ import vlib
 
 SCHEMA = "core.person"      # attached in the fixed container
 SCHEMA2 = "core.org"        # sacrificial schema for metadata set/delete attempts
+SAC = "zsac"                # name of the sacrificial subtree (group + child dataset, both with metadata)
 
 # ---------------------------------------------------------------------------- the fixed container
 
@@ -128,6 +129,13 @@ def _ops_for(kind: str, present: Dict[str, bool]) -> List[list]:
         O.append(["contains", False, ["h"]])
         O.append(["contains", True, ["g"]])
         O.append(["listing"])
+        # users of the sacrificial subtree: the non-consuming one first, the deleting one last
+        # (it has a name of its own, so that no other operation's preparation or clean-up touches it)
+        plain = [["copy", False, ["zz"], False, ["zy"]], ["move", False, ["zz"], False, ["zy"]],
+                 ["grp", "delitem", False, ["zz"]]]
+        first = [["copy", False, [SAC], False, ["zy"]], ["move", False, [SAC], False, ["zy"]]]
+        last = [["grp", "delitem", False, [SAC]]]
+        O = first + [o for o in O if o not in plain] + last
     else:
         O.append(["ds_read"])
         O.append(["ds_write"])
@@ -430,7 +438,8 @@ def _drop_sacrifice(env: Env, sess: Session, full: str):
         _raw_del(env, full)
 
 
-def run_op(env: Env, sess: Session, node, op, check_state: bool = False, logical: bool = False):
+def run_op(env: Env, sess: Session, node, op, check_state: bool = False, logical: bool = False,
+           keep: Optional[set] = None, rich: bool = True):
     """Attempt one protocol operation on the node; every effect of a passing operation is
     undone through the raw container (or, for metadata, through the unrestricted handle of
     the same wrapper).  -> ("refused" | "passed", detail, state changed by a refused op?)
@@ -438,7 +447,8 @@ def run_op(env: Env, sess: Session, node, op, check_state: bool = False, logical
     With `check_state` the raw state right before the operation proper (after the harness's own
     preparation: sacrificial children, attributes, metadata) is compared with the state right
     after a refusal, before any clean-up: by file bytes first, confirmed by a second execution
-    with full raw dumps (`logical`)."""
+    with full raw dumps (`logical`).  `keep`: the sacrificial subtree is left in place for the
+    next operation of the suite (its paths are collected there; the suite drops them)."""
     raw = env.raw
     name = node.name
     base = name.rstrip("/")
@@ -461,9 +471,13 @@ def run_op(env: Env, sess: Session, node, op, check_state: bool = False, logical
         if t == "grp":
             g, ab, segs = op[1], op[2], op[3]
             p, full = parg_str(ab, segs), tgt(ab, segs)
-            if g == "delitem" and not ab:
-                cleanup.append(lambda: _drop_sacrifice(env, sess, full))
-                _make_sacrifice(env, sess, full)
+            if g == "delitem" and not ab and segs == [SAC] and rich:
+                if keep is None:
+                    cleanup.append(lambda: _drop_sacrifice(env, sess, full))
+                else:
+                    keep.add(full)
+                if full not in raw:
+                    _make_sacrifice(env, sess, full)
             else:
                 cleanup.append(lambda: _raw_del(env, full))
                 if g == "delitem":
@@ -484,9 +498,14 @@ def run_op(env: Env, sess: Session, node, op, check_state: bool = False, logical
         elif t in ("move", "copy"):
             pa, fa = parg_str(op[1], op[2]), tgt(op[1], op[2])
             pb, fb = parg_str(op[3], op[4]), tgt(op[3], op[4])
-            if not op[1] and not op[3]:
-                cleanup.append(lambda: (_drop_sacrifice(env, sess, fa), _drop_sacrifice(env, sess, fb)))
-                _make_sacrifice(env, sess, fa)
+            if not op[1] and not op[3] and op[2] == [SAC] and rich:
+                cleanup.append(lambda: _drop_sacrifice(env, sess, fb))
+                if keep is None:
+                    cleanup.append(lambda: _drop_sacrifice(env, sess, fa))
+                else:
+                    keep.add(fa)
+                if fa not in raw:
+                    _make_sacrifice(env, sess, fa)
             else:
                 cleanup.append(lambda: (_raw_del(env, fa), _raw_del(env, fb)))
                 raw[fa] = 1
@@ -616,8 +635,10 @@ def run_op(env: Env, sess: Session, node, op, check_state: bool = False, logical
         for c in cleanup:
             c()
     if changed and not logical:
-        # file bytes differ: confirm on the raw content with a second execution
-        return run_op(env, sess, node, op, check_state=True, logical=True)
+        # file bytes differ: confirm on the raw content with a second execution (fresh sacrifice)
+        for full in list(keep or ()):
+            _drop_sacrifice(env, sess, full)
+        return run_op(env, sess, node, op, check_state=True, logical=True, keep=keep, rich=rich)
     return res, detail, changed
 
 
@@ -700,19 +721,22 @@ def claims_meta(flags, start_path, hop_result) -> List[str]:
     return probs
 
 
-def run_suite(env: Env, sess: Session, node, ops: List[list], baseline, only=None):
+def run_suite(env: Env, sess: Session, node, ops: List[list], baseline, only=None, rich: bool = True):
     """Attempt the operations (all, or those selected by `only`) and compare the raw dump
     with the baseline.  -> (results per op ('-' = not attempted), new baseline, state problems)"""
     results = []
     early: List[Dict[str, Any]] = []
+    keep: set = set()
     for op in ops:
         if only is not None and not only(op):
             results.append("-")
             continue
-        r, _, changed = run_op(env, sess, node, op, check_state=baseline is not None)
+        r, _, changed = run_op(env, sess, node, op, check_state=baseline is not None, keep=keep, rich=rich)
         results.append(r)
         if changed:
             early.append({"op": op, "outcome": r, "state_changed": True})
+    for full in keep:
+        _drop_sacrifice(env, sess, full)
     if baseline is None:
         return results, None, []
     after = env.dump()
@@ -862,7 +886,9 @@ def w_explore(task) -> Dict[str, Any]:
                         if full_suite:
                             if state["baseline"] is None:
                                 state["baseline"] = env.dump()
-                            results, b2, problems = run_suite(env, s2, res, OPS[kind], state["baseline"])
+                            # the metadata-bearing sacrificial subtree matters where refusals are expected
+                            results, b2, problems = run_suite(env, s2, res, OPS[kind], state["baseline"],
+                                                              rich=bool(flags[0] or acl[0]))
                             state["baseline"] = b2
                             out["suites"] += 1
                             item_meta = probe_meta(env, res, bool(flags[0]))
@@ -892,7 +918,8 @@ def w_explore(task) -> Dict[str, Any]:
 
                 sess0 = Session(env, start, flags)      # never shared with replays
                 segs, kind, acl = node_obs(sess0.node)
-                results, b2, problems = run_suite(env, sess0, sess0.node, OPS[kind], state["baseline"])
+                results, b2, problems = run_suite(env, sess0, sess0.node, OPS[kind], state["baseline"],
+                                                  rich=bool(flags[0] or acl[0]))
                 state["baseline"] = b2
                 out["start"] = [segs, kind, list(acl), results, problems,
                                 probe_meta(env, sess0.node, bool(flags[0]))]
@@ -958,6 +985,7 @@ def eval_case(case: Dict[str, Any]) -> Dict[str, Any]:
     return res
 
 
+REFUSED_CHANGED_CLAIM = "refused operation changed the raw container"
 RAW_CLAIM = "navigation from a restricted node handed out a raw (unwrapped, unrestricted) object"
 
 
@@ -1002,14 +1030,14 @@ def claims_op(flags, op, outcome: str, state_changed: bool) -> List[str]:
     if flags[0] and op_is_mutating(op):
         if outcome != "refused":
             probs.append("mutating operation not refused below a read_only start node")
-        if state_changed:
+        if state_changed and outcome != "refused":
             probs.append("raw container changed by an operation below a read_only start node")
     if flags[2] and op_is_revealing(op) and outcome != "refused":
         probs.append("revealing operation not refused below a skel_only start node")
     if flags[1] and op_is_upward(op) and outcome != "refused":
         probs.append("operation with an absolute path not refused below a local_only start node")
     if outcome == "refused" and state_changed:
-        probs.append("refused operation changed the raw container")
+        probs.append(REFUSED_CHANGED_CLAIM)
     return probs
 
 
@@ -1046,6 +1074,9 @@ def canon_sig(case: Dict[str, Any]) -> Dict[str, Any]:
     if case.get("op") and case["op"][0] == "meta_node":
         # the same escape whatever the driver, the start node, the route and the listing method
         return {"escape": "meta-listing-node", "claim": case.get("claim")}
+    if case.get("claim") == REFUSED_CHANGED_CLAIM:
+        # the same defect whatever the start node and the route to the node
+        return {"escape": "refused-op-changed-state", "op": case["op"][:2] if case.get("op") else None}
     return {
         "start": case["start"],
         "chain": [[p[0]] + ([bool(p[1])] if len(p) == 3 else []) + ([p[1]] if p[0] == "restrict" else [])
@@ -1376,6 +1407,8 @@ def shrink_case(c: Dict[str, Any]) -> Optional[Dict[str, Any]]:
     if ev is None:
         return None
     chain = list(base["chain"])
+    if chain and still_fails({**base, "chain": []}) is not None:
+        chain = []
     if len(chain) > 1:
         def fails(sub):
             return still_fails({**base, "chain": sub}) is not None
